@@ -32,6 +32,100 @@ func Now() Time {
 }
 
 func Since(t Time) Duration { return Now().Sub(t) }
+func Until(t Time) Duration { return t.Sub(Now()) }
+func Unix(sec, nsec int64) Time { return rtime.Unix(sec, nsec) }
+
+type Month = rtime.Month
+type Location = rtime.Location
+
+var UTC = rtime.UTC
+
+const (
+	RFC3339     = rtime.RFC3339
+	RFC3339Nano = rtime.RFC3339Nano
+)
+
+func ParseDuration(s string) (Duration, error) { return rtime.ParseDuration(s) }
+
+// Timer is a one-shot timer on the simulated clock.
+type Timer struct {
+	C     <-chan Time
+	ch    chan Time
+	gen   int
+	armed bool
+	real  *rtime.Timer
+}
+
+func NewTimer(d Duration) *Timer {
+	if !zsim.Active() {
+		rt := rtime.NewTimer(d)
+		return &Timer{C: rt.C, real: rt}
+	}
+	ch := make(chan Time, 1)
+	t := &Timer{C: ch, ch: ch}
+	t.arm(d)
+	return t
+}
+
+func (t *Timer) arm(d Duration) {
+	t.gen++
+	gen := t.gen
+	t.armed = true
+	w := zsim.W
+	w.After(d, func() {
+		if t.gen != gen || !t.armed {
+			return
+		}
+		t.armed = false
+		select {
+		case t.ch <- epoch.Add(w.Now()):
+		default:
+		}
+	})
+}
+
+// Stop prevents the timer from firing; like the pre-Go-1.23 timers (the module says go 1.18)
+// it does not drain a value already sent.
+func (t *Timer) Stop() bool {
+	if t.real != nil {
+		return t.real.Stop()
+	}
+	was := t.armed
+	t.armed = false
+	return was
+}
+
+// Reset re-arms the timer; a stale value stays in the channel (go 1.18 semantics).
+func (t *Timer) Reset(d Duration) bool {
+	if t.real != nil {
+		return t.real.Reset(d)
+	}
+	was := t.armed
+	if zsim.Dying() {
+		return was
+	}
+	t.arm(d)
+	return was
+}
+
+func AfterFunc(d Duration, f func()) *Timer {
+	if !zsim.Active() {
+		return &Timer{real: rtime.AfterFunc(d, f)}
+	}
+	t := &Timer{}
+	t.gen++
+	gen := t.gen
+	t.armed = true
+	w := zsim.W
+	owner := zsim.CurrentProc()
+	w.After(d, func() {
+		if t.gen == gen && t.armed && (owner == nil || !owner.Exited) {
+			t.armed = false
+			w.Spawn(owner, "time.AfterFunc", f)
+		}
+	})
+	return t
+}
 
 func Sleep(d Duration) {
 	if zsim.Active() {
